@@ -31,7 +31,9 @@ def _is_lemma_shape(node):
 
 
 def _contains_call(node):
-    return any(isinstance(n, ast.Call) for n in ast.walk(node))
+    """Calls and allocating literals (anything that is more than a pure read)."""
+    return any(isinstance(n, (ast.Call, ast.List, ast.Dict, ast.Set, ast.ListComp, ast.DictComp, ast.SetComp, ast.GeneratorExp))
+               for n in ast.walk(node))
 
 
 class Exec(Verifier):
@@ -737,8 +739,19 @@ class Exec(Verifier):
                 self.hset(k, self.fresh("H_" + k, self.st.heap[k].sort()))
             self.havoc([], {}, allocates=True)
         else:
-            self.havoc(spec.modifies, dict(self.st.loc), allocates=('$alloc' in spec.modifies))
+            new_regions = ["#" + m.split("@", 1)[1].strip() for m in spec.modifies if m.startswith("new@")]
+            self.havoc([m for m in spec.modifies if not m.startswith("new@")], dict(self.st.loc),
+                       allocates=('$alloc' in spec.modifies or bool(new_regions)))
+            alloc_pre = pre_heap.get("$alloc", self._init_heap.get("$alloc", self.alloc_map()))
+            for rg in new_regions:
+                for k in [k for k in list(self.st.heap) if k.startswith("$") and k.endswith(rg)]:
+                    old = self.st.heap[k]
+                    new = self.fresh("H_" + k, old.sort())
+                    r = self.fresh("r", Ref)
+                    self.assume(z3.ForAll([r], z3.Implies(z3.Select(alloc_pre, r), z3.Select(new, r) == z3.Select(old, r))))
+                    self.hset(k, new)
         head_heap = dict(self.st.heap)
+        alloc_head = self.alloc_map()
         self.loop_heap = pre_heap
         # 3. assume invariant
         for cl in spec.invariant:
@@ -781,9 +794,16 @@ class Exec(Verifier):
                     self.oblige("%s variant decreases" % label, "decreases", _lex_less(dec1, dec0), props, text=str(spec.decreases))
                 # frame: heap locations outside `modifies` are untouched
                 if spec.modifies is not None:
-                    for k, term in self.st.heap.items():
+                    new_regions = ["#" + m.split("@", 1)[1].strip() for m in spec.modifies if m.startswith("new@")]
+                    for k, term in list(self.st.heap.items()):
                         h0 = head_heap.get(k, self._init_heap.get(k))
-                        if h0 is not None and term.get_id() != h0.get_id() and not self._in_modifies(k, spec.modifies):
+                        if h0 is None or term.get_id() == h0.get_id():
+                            continue
+                        if any(k.endswith(rg) for rg in new_regions):
+                            r = self.fresh("r", Ref)
+                            self.oblige("%s frame: %s changes only at objects allocated by this iteration" % (label, k), "frame",
+                                        z3.ForAll([r], z3.Implies(z3.Select(alloc_head, r), z3.Select(term, r) == z3.Select(h0, r))), props)
+                        elif not self._in_modifies(k, spec.modifies):
                             self.oblige("%s frame: %s is not modified" % (label, k), "frame", term == h0, props)
                 self.loop_heap = saved_loop_heap
                 raise PathEnd()
